@@ -59,7 +59,10 @@ ASSUMPTIONS = [
     "dict outputs are modelled as their flattened key/value sequence (file keys that collapse after copying are not modelled)",
 ]
 RULE = ("nested list/tuple/dict values (depth <= 3) over real temp files and directories with colliding names from up "
-        "to 4 directories (same object repeated, equal file-sets, different classes on one path, counter-like names), "
+        "to 4 directories, every single-path FileSet flavour (File, BinaryFile, TextFile, SetOf[TextFile], FsObject, "
+        "Directory, TypedDirectory, DirectoryOf[TextFile], DirectoryOf[Optional[TextFile]] — the typed directories both "
+        "truthy and falsy, i.e. holding only foreign files), falsy non-file leaves (0, '', (), b'', None) next to them; same "
+        "object repeated, equal file-sets, different classes on one path, counter-like names, "
         "1-3 output fields, dict keys strs (direct mode: also file-sets), optional patched mount table, optional "
         "pre-existing entries in the target directory; run through copyfile_workflow directly and through real "
         "workflows; non-trivial = at least two file leaves sharing a name from different sources, or a file-set "
@@ -97,7 +100,8 @@ class Sandbox:
         if str(p) not in self.sources:
             p.mkdir(parents=True)
             self.counter += 1
-            (p / "in.txt").write_text("C%d" % self.counter)
+            # half of the directories hold only "foreign" files: typed directories over them are falsy
+            (p / ("in.txt" if rng.random() < 0.5 else "in.bin")).write_text("C%d" % self.counter)
             if rng.random() < 0.4:
                 (p / "sub").mkdir()
                 (p / "sub" / "deep").write_text("C%dd" % self.counter)
@@ -194,14 +198,37 @@ class Sandbox:
         shutil.rmtree(self.root, ignore_errors=True)
 
 
+_CLASSES = None
+
+
 def fileset_classes():
-    from fileformats.generic import File, Directory, FsObject
-    from fileformats.text import TextFile
-    return {"File": File, "Directory": Directory, "FsObject": FsObject, "TextFile": TextFile}
+    """Every single-path FileSet flavour available here, under stable labels (two parametrised classes can share
+    a __name__).  TypedDirectory / DirectoryOf[Optional[...]] are *falsy* when they hold none of their typed
+    contents (len() == 0) although the directory exists and holds other files."""
+    global _CLASSES
+    if _CLASSES is None:
+        from fileformats.generic import File, Directory, FsObject, TypedDirectory, DirectoryOf, SetOf, BinaryFile
+        from fileformats.text import TextFile
+        _CLASSES = {"File": File, "Directory": Directory, "FsObject": FsObject, "TextFile": TextFile,
+                    "BinaryFile": BinaryFile, "TypedDirectory": TypedDirectory,
+                    "DirectoryOfText": DirectoryOf[TextFile], "DirectoryOfOptText": DirectoryOf[ty.Optional[TextFile]],
+                    "SetOfText": SetOf[TextFile]}
+    return _CLASSES
+
+
+def class_label(v):
+    for k, c in fileset_classes().items():
+        if type(v) is c:
+            return k
+    raise OutOfModel("file-set class %s" % type(v).__name__)
+
+
+FALSY_OK = True   # C34's driver leaves this on as well; a flag so that a driver can restrict the pool
 
 
 def gen_leaf_pool(rng, sb, n):
-    """n file-set objects over colliding names; includes equal-but-distinct objects and class variants."""
+    """n file-set objects over colliding names; includes equal-but-distinct objects, class variants, and typed
+    directories that are falsy (no typed contents) or truthy."""
     cls = fileset_classes()
     pool = []
     for _ in range(n):
@@ -209,9 +236,9 @@ def gen_leaf_pool(rng, sb, n):
         name = rng.choice(NAMES)
         if pool and rng.random() < 0.15:
             other = rng.choice(pool)
-            p = Path(str(other))
+            p = Path(fsp(other))
             kind = sb.sources[str(p)]
-        elif rng.random() < 0.25:
+        elif rng.random() < 0.3:
             p, kind = sb.mkdir(d, name, rng), "dir"
             if sb.sources[str(p)] != "dir":
                 kind = "file"
@@ -220,14 +247,17 @@ def gen_leaf_pool(rng, sb, n):
             if sb.sources[str(p)] != "file":
                 kind = "dir"
         if kind == "dir":
-            c = rng.choice(["Directory", "Directory", "FsObject"])
+            has_txt = (p / "in.txt").exists()
+            c = rng.choice(["Directory", "Directory", "FsObject", "TypedDirectory", "TypedDirectory", "DirectoryOfOptText"]
+                           + (["DirectoryOfText"] if has_txt else ["DirectoryOfOptText"]))
         else:
-            c = rng.choice(["File", "File", "File", "FsObject"] + (["TextFile"] if p.name.endswith(".txt") else []))
+            c = rng.choice(["File", "File", "File", "FsObject", "BinaryFile"]
+                           + (["TextFile", "SetOfText"] if p.name.endswith(".txt") else []))
         pool.append(cls[c](p))
     return pool
 
 
-ATOMS = [0, 1, 7, "", "s", "f.txt", None, True, False, 2.5, b"ab", b""]
+ATOMS = [0, 0, 1, 7, "", "", "s", "f.txt", None, True, False, 2.5, 0.0, b"ab", b"", ()]
 
 
 def gen_value(rng, pool, depth, want_file=True, file_keys=False):
@@ -277,6 +307,11 @@ class OutOfModel(Exception):
     pass
 
 
+def fsp(v):
+    """The (first) fspath of a file-set as a str (str(v) is not the path for every flavour)."""
+    return str(sorted(v.fspaths)[0])
+
+
 def enc_path(cp):
     return coqio.pair(coqio.string(cp[0]), coqio.string(cp[1]))
 
@@ -287,7 +322,7 @@ def enc_value(sb, v):
         if len(v.fspaths) != 1:
             raise OutOfModel("multi-path file-set %r" % (v,))
         (p,) = tuple(v.fspaths)
-        return '(VFile (%s, %s))' % (coqio.string(type(v).__name__), enc_path(sb.cpath(p)))
+        return '(VFile (%s, %s))' % (coqio.string(class_label(v)), enc_path(sb.cpath(p)))
     if is_container(v):
         if isinstance(v, cabc.Mapping):
             items = []
@@ -306,7 +341,12 @@ def describe(sb, v):
     from fileformats.generic import FileSet
     if isinstance(v, FileSet):
         p = tuple(v.fspaths)[0]
-        return {"fileset": type(v).__name__, "path": "/".join(sb.cpath(p))} | ({"dir": True} if os.path.isdir(p) else {})
+        try:
+            label = class_label(v)
+        except OutOfModel:
+            label = type(v).__name__
+        return ({"fileset": label, "path": "/".join(sb.cpath(p))} | ({"dir": True} if os.path.isdir(p) else {})
+                | ({"falsy": True} if not v else {}))
     if is_container(v):
         if isinstance(v, cabc.Mapping):
             return {"dict": [[describe(sb, k), describe(sb, x)] for k, x in v.items()]}
@@ -322,10 +362,10 @@ def rebuild(sb, d, cls=None):
         dd, _, name = rel.rpartition("/")
         real = sb.root / dd / name
         if not real.exists():
-            if d["fileset"] == "Directory" or d.get("dir"):
+            if d["fileset"] in ("Directory", "TypedDirectory", "DirectoryOfText", "DirectoryOfOptText") or d.get("dir"):
                 real.mkdir(parents=True)
                 sb.counter += 1
-                (real / "in.txt").write_text("C%d" % sb.counter)
+                (real / ("in.bin" if d.get("falsy") else "in.txt")).write_text("C%d" % sb.counter)
                 sb.sources[str(real)] = "dir"
             else:
                 sb.mkfile(dd, name)
@@ -531,7 +571,7 @@ def one_case(ctx, rng, base, mode, spec=None):
             pre = []
             if mode == "direct" and rng.random() < 0.3:
                 # entries the directory already holds: named like an output, like a counter name, or unrelated
-                lv = [Path(str(x)).name for v in values for x in leaves_of(v)]
+                lv = [Path(fsp(x)).name for v in values for x in leaves_of(v)]
                 pre = sorted({rng.choice(lv + ["zz_unrelated", "f (1).txt", "f (2).txt", "_job.pklz"])
                               for _ in range(rng.choice([1, 1, 2, 3]))})
         else:
@@ -568,9 +608,9 @@ def one_case(ctx, rng, base, mode, spec=None):
                 pre = sorted(set(pre) | {"_job.pklz"})    # it was there when collection started
             sb.engine = {n: 900 + i for i, n in enumerate(pre)}
             c0 = c0 + [((sb.dest_canon, n), 900 + i, "ENGINE") for i, n in enumerate(pre)]
-        names = [Path(str(x)).name for x in leaves]
-        src_set = {str(x) for x in leaves}
-        nontrivial = (len(names) != len(set(names)) and len(src_set) > 1) or len(leaves) != len(set(map(str, leaves)))
+        names = [Path(fsp(x)).name for x in leaves]
+        src_set = {fsp(x) for x in leaves}
+        nontrivial = (len(names) != len(set(names)) and len(src_set) > 1) or len(leaves) != len(set(map(fsp, leaves)))
         meta = {"mode": mode, "values": desc_in, "table": [[sb.canon(p), t] for p, t in table] if table is not None else None,
                 "pre": pre, "n_leaves": len(leaves), "nontrivial": bool(nontrivial),
                 "taken": False}
